@@ -20,7 +20,7 @@ R_PARSE = re.compile(r"concordium_wasm::parse::(Parseable::parse|GetParseable::n
 def norm_ty(t):
     if t is None:
         return "?"
-    t = re.sub(r"&'?[a-z_]*\s*(mut )?", "", t)
+    t = re.sub(r"&('[a-z_]+\s+)?(mut\s+)?", "", t)
     t = t.replace("&mut ", "").replace("&", "").strip()
     t = re.sub(r"^std::boxed::Box<(.*)>$", r"\1", t)
     t = re.sub(r"^std::vec::Vec<(.*)>$", r"[\1]", t)
@@ -29,6 +29,13 @@ def norm_ty(t):
     if t in ("std::string::String", "str"):
         t = "str"
     return t
+
+
+def _elem(f):
+    """element type(s) of a collection helper: its non-io generic arguments"""
+    ga = [norm_ty(g) for g in f.get("gargs", [])]
+    ga = [g for g in ga if not re.match(r"^(R|W|B|impl .*|.*Cursor.*|.*Read.*|.*Write.*)$", g) and len(g) > 0]
+    return ",".join(ga[-2:]) if ga else ""
 
 
 def _tok(t, side):
@@ -46,7 +53,7 @@ def _tok(t, side):
             return ("B",)
         m = W_HELP.search(f["path"])
         if m:
-            return ("H", m.group(2))
+            return ("H", m.group(2), _elem(f))
         if callee_match(t, W_OUT):
             return ("T", norm_ty(f.get("self")))
     else:
@@ -62,7 +69,7 @@ def _tok(t, side):
             return ("B",)
         m = R_HELP.search(f["path"])
         if m:
-            return ("H", m.group(2))
+            return ("H", m.group(2), _elem(f))
         if callee_match(t, R_PARSE):
             ga = [g for g in f.get("gargs", []) if g != f.get("self")]
             return ("T", norm_ty(ga[-1] if ga else f.get("self")))
@@ -88,7 +95,11 @@ def canon(tok):
     if tok[0] == "H" and tok[1] in ("string", "bytes"):
         return ("B",)
     if tok[0] == "H" and tok[1].startswith("vector_no_length"):
+        if len(tok) > 2 and tok[2].split(",")[-1] == "u8":
+            return ("B",)
         return ("H", "vector_no_length")
+    if tok[0] == "H":
+        return ("H", re.sub(r"_no_order_check$", "", tok[1]))
     return tok
 
 
@@ -209,6 +220,11 @@ def expand(toks, impls, side, depth=1):
     for k in toks:
         if k[0] == "T" and impls is not None:
             b = impls.get(strip_lt(k[1]))
+            if b is None:
+                base = strip_lt(k[1]).split("<")[0]
+                cands = [v for kk, v in impls.items() if kk.split("<")[0] == base and "<" in kk]
+                if len(cands) == 1:
+                    b = cands[0]
             if b is not None and depth > 0:
                 f = Fn(b)
                 if not has_loop(f) and branches(f) == 0:
